@@ -37,8 +37,8 @@ package core
 
 //@ func (*CommonMetricSampler).Sample
 //@   ensures[C20] nil_noop: s == nil ==> nevents() == 0
-//@   ensures[C20] rtt_once: s != nil ==> ncallsOn(s.RTTListener, "core.MetricSampleListener.AddSample") >= 1
 //@   ensures[C20] count: s != nil ==> ncalls("core.MetricSampleListener.AddSample") == ite(didDrop, 3, 2)
-//@   ensures[C20] drop_iff: s != nil && didDrop ==> callrecv("core.MetricSampleListener.AddSample", 0) == s.DropCounterListener && callarg("core.MetricSampleListener.AddSample", 0, 0) == 1.0
-//@   ensures[C20] rtt_value: s != nil ==> callrecv("core.MetricSampleListener.AddSample", ite(didDrop, 1, 0)) == s.RTTListener
+//@   ensures[C20] drop_counted: s != nil && didDrop ==> callrecv("core.MetricSampleListener.AddSample", 0) == s.DropCounterListener && callarg("core.MetricSampleListener.AddSample", 0, 0) == 1.0
+//@   ensures[C20] with_drop: s != nil && didDrop ==> callrecv("core.MetricSampleListener.AddSample", 1) == s.RTTListener && callarg("core.MetricSampleListener.AddSample", 1, 0) == float64(rtt) && callrecv("core.MetricSampleListener.AddSample", 2) == s.InFlightListener && callarg("core.MetricSampleListener.AddSample", 2, 0) == float64(inFlight)
+//@   ensures[C20] without_drop: s != nil && !didDrop ==> callrecv("core.MetricSampleListener.AddSample", 0) == s.RTTListener && callarg("core.MetricSampleListener.AddSample", 0, 0) == float64(rtt) && callrecv("core.MetricSampleListener.AddSample", 1) == s.InFlightListener && callarg("core.MetricSampleListener.AddSample", 1, 0) == float64(inFlight)
 //@   assigns nothing
